@@ -51,7 +51,10 @@ class LindbladForm(RedfieldRelaxationTensor):
         if sbi is None:
             KK = numpy.zeros((1, Na, Na), dtype=REAL)
         else:
-            KK = sbi.KK
+            # the tensor owns its operators: the array of the system-bath
+            # interaction is shared by every object created from it and a
+            # basis change transforms the operators in place
+            KK = numpy.array(sbi.KK, copy=True)
             
         self._post_implementation(KK, llm, lld)
 
